@@ -20,6 +20,7 @@ CLS_ENUM = 'enumerate_iterable_keyword'
 CLS_BODY = 'frame_builtin_inside_functionalised_body'
 CLS_EVAL_G = 'eval_globals_without_locals'
 CLS_EVAL_N = 'eval_explicit_none_globals'
+CLS_STALE = 'dynamic_read_of_name_written_in_body_without_nonlocal'
 WATCH = ('a', 'b', 'u', 'v', 'x', 'out')
 
 
@@ -71,6 +72,21 @@ class Routes:
         if via == 'converted_call':
             api, opts = self.api, self.opts
             return lambda *a, **k: api.converted_call(f, tuple(a), dict(k) if k else None, options=opts)
+        if via == 'converted_call_partial':
+            # the same call spelled as a functools.partial of the builtin with its first argument pre-bound
+            import functools
+            api, opts = self.api, self.opts
+
+            def sub(*a, **k):
+                if a:
+                    part, rest, kk = functools.partial(f, a[0]), a[1:], k
+                elif k:
+                    first = next(iter(k))
+                    part, rest, kk = functools.partial(f, **{first: k[first]}), a, {x: v for x, v in k.items() if x != first}
+                else:
+                    part, rest, kk = functools.partial(f), a, k
+                return api.converted_call(part, tuple(rest), dict(kk) if kk else None, options=opts)
+            return sub
         raise ValueError(via)
 
     def tmpdir(self):
@@ -207,7 +223,57 @@ def class_of_program(prog):
             return c
     if prog['kind'] in ('eval', 'locals') and body_hides_py(prog):
         return CLS_BODY
+    if stale_read_py(prog):
+        return CLS_STALE
     return None
+
+
+def stale_read_py(prog):
+    """staleDynamicRead: the call reads x dynamically after a block that assigns x, and nothing reads x statically
+    afterwards (so the converter keeps the block's x local to the generated body)."""
+    return prog['kind'] == 'after' and not prog.get('static_read')
+
+
+def extract_writes(code, watched):
+    """From the generated code: every assignment to a watched name as (name, in a nested generated function?,
+    does that function declare the name nonlocal?)."""
+    import ast
+    tree = ast.parse(code)
+    top = next(n for n in tree.body if isinstance(n, ast.FunctionDef))
+    writes = []
+
+    def own_nodes(fn):
+        stack = list(fn.body)
+        while stack:
+            n = stack.pop()
+            yield n
+            for c in ast.iter_child_nodes(n):
+                if not isinstance(c, (ast.FunctionDef, ast.Lambda, ast.AsyncFunctionDef, ast.ClassDef)):
+                    stack.append(c)
+
+    def nested(fn):
+        stack = list(fn.body)
+        while stack:
+            n = stack.pop()
+            if isinstance(n, ast.FunctionDef):
+                yield n
+                continue
+            stack.extend(ast.iter_child_nodes(n))
+
+    def visit(fn, in_body):
+        nonlocals = set()
+        targets = []
+        for n in own_nodes(fn):
+            if isinstance(n, ast.Nonlocal):
+                nonlocals.update(n.names)
+            elif isinstance(n, ast.Name) and isinstance(n.ctx, ast.Store) and n.id in watched:
+                targets.append(n.id)
+        for t in targets:
+            writes.append((t, in_body, t in nonlocals))
+        for g in nested(fn):
+            visit(g, True)
+    visit(top, False)
+    return sorted(set(writes))
 
 
 def body_hides_py(prog):
@@ -239,7 +305,11 @@ def program_case(routes, prog, feature):
             rc = run_callable(conv, mk_args(a))
             results.append({'args': a, 'original': ro, 'converted': rc})
     bad = [r for r in results if r['original'] != r['converted']]
-    return ('converted function differs from the original' if bad else None), {'results': results}, spy.records
+    try:
+        writes = extract_writes(routes.malt.to_code(orig, recursive=True, experimental_optional_features=feats), WATCH)
+    except Exception as e:  # noqa
+        writes = [('unavailable: %s' % type(e).__name__, False, False)]
+    return ('converted function differs from the original' if bad else None), {'results': results, 'writes': writes}, spy.records
 
 
 def _program_chunk(chunk):
@@ -439,7 +509,7 @@ def lemma_obligations(run):
             run.oblige('lemma:%s' % n, 'theorem', not bad, errs if bad else '')
 
 
-VIAS = ['overload_of', 'converted_call', 'converted_function']
+VIAS = ['overload_of', 'converted_call', 'converted_function', 'converted_call_partial']
 
 
 def replay_case(routes, case):
@@ -458,7 +528,7 @@ def check(run, only_case=None):
     run.rule = ('direct: every substituted builtin x every accepted way of calling it (each optional parameter present/absent, '
                 'positionally or by its documented keyword; all keyword orders) x value families (ints, floats, bools, strings, '
                 'bytes, lists, tuples, sets, dicts, iterators, generators, counting sources, user objects with the relevant dunder '
-                'methods, values the builtin rejects) x route (overload_of, converted_call, converted function); programs: one '
+                'methods, values the builtin rejects) x route (overload_of, converted_call, converted_call of a functools.partial, converted function); programs: one '
                 'eval/locals/globals/super call at every nest of if/else/elif/for/while up to the tier depth; a case is distinct by '
                 '(builtin, way, value spec, route) or (call kind, nest, feature); non-trivial = the builtin accepted the call '
                 'shape (all generated shapes are), so the comparison is of a value, a lazy object, output or a value rejection')
@@ -608,8 +678,12 @@ def _check(run, routes, only_case):
         feats = features if (pi % 5 == 0 or not quick) else [features[pi % 2]]
         for feature in feats:
             jobs.append((prog, feature))
+    stale_lines, stale_expect = [], []
     for (prog, feature), (what, det, recs) in zip(jobs, run_program_jobs(routes, jobs)):
         run.case(('program', prog['call'], tuple(prog['nest']), feature), True)
+        if 'writes' in det:
+            stale_lines.append('c14.class.stale %s %s' % (sexp(list(prog.get('needs', []))), sexp([[n, b, d] for n, b, d in det['writes']])))
+            stale_expect.append(sexp(stale_read_py(prog)))
         kd = '%s@%d' % (prog['kind'], len(prog['nest']))
         st = by_kind_depth.setdefault(kd, [0, 0])
         st[0] += 1
@@ -900,10 +974,12 @@ def _check(run, routes, only_case):
                 expect.append('none' if out[0] is None else str(out[0]))
     corr('c14.find', lines, expect)
     corr('c14.class.body', cls_lines, cls_expect)
+    corr('c14.class.stale', stale_lines, stale_expect)
     modes = {b: drive(['c14.innermost ' + b])[0] for b in ('eval', 'locals', 'globals', 'super')}
     seen_modes = {}
     for prog, r in frame_records:
-        seen_modes.setdefault(prog['kind'], set()).add(sexp(r['innermost']))
+        kind = prog['kind'] if prog['kind'] != 'after' else ('eval' if prog['call'].startswith('eval') else 'locals')
+        seen_modes.setdefault(kind, set()).add(sexp(r['innermost']))
     badm = {k: sorted(v) for k, v in seen_modes.items() if v != {modes[k]}}
     run.oblige('correspondence:c14.innermost', 'correspondence', not badm, 'model %s, observed %s' % (modes, badm))
     run.cov['frame_searches_recorded'] = len(frame_records)
